@@ -33,6 +33,8 @@ type Service struct {
 	Fail func(in *graphql.QueryInput, n int) (interface{}, error, bool)
 	// Gate, when set, is called before answering (schedule control): it may block
 	Gate func(svc *Service, n int, in *graphql.QueryInput)
+	// Done, when set, is called when Query returns
+	Done func()
 	// Effects counts executions of mutation root fields
 	Effects map[string]int
 }
@@ -56,6 +58,9 @@ func (s *Service) Query(ctx context.Context, in *graphql.QueryInput, recv interf
 	s.mu.Unlock()
 	if s.Gate != nil {
 		s.Gate(s, n, in)
+	}
+	if s.Done != nil {
+		defer s.Done()
 	}
 	doc, errs := gqlparser.LoadQuery(s.Schema, in.Query)
 	if errs != nil {
